@@ -185,6 +185,9 @@ func drawMaterialFor(rt *rapid.T, label, fam, alg string) *jkey {
 		v := new(big.Int).SetBytes(raw)
 		v.Mod(v, n1).Add(v, big.NewInt(1)) // [1, n-1]
 		k.ecScalar = v.FillBytes(make([]byte, size))
+		if sc, ok := gen.SpecialECScalar(rt, label+"_scalar", size, 8); ok {
+			k.ecScalar = sc // a coordinate starting with 0x00 / 0x02 / 0x03 / 0x04 / 0x80 / 0xff (JWK x, y encodings)
+		}
 		priv, err := ecdsa.ParseRawPrivateKey(curve, k.ecScalar)
 		if err != nil {
 			rt.Fatalf("harness: scalar %x refused for %s: %v", k.ecScalar, k.alg, err)
